@@ -21,6 +21,8 @@ package support
 //@   call (*tree.Tree).CompareTipIndexes [only_after_successful_indexing] inerr == nil
 //@   call sync/atomic.AddInt32 [tree_counted_only_after_taxon_check] inerr == nil && a1 == 1
 //@   call (*tree.EdgeIndex).PutEdgeValue [only_inner_branches_of_the_bootstrap_tree_are_indexed] len(e2.right.neigh) != 1
+//@   call (*tree.EdgeIndex).PutEdgeValue@L1 [each_bootstrap_tree_is_indexed_in_an_index_of_its_own] a0 == edgeIndex && a1 == e2 && !atHead(allocated(edgeIndex))
+//@   call (*tree.EdgeIndex).Value@L1 [reference_branches_are_looked_up_in_the_index_of_this_bootstrap_tree] a0 == edgeIndex && a1 == e && !atHead(allocated(edgeIndex))
 //@   send foundEdges [sent_iff_reference_branch_found_in_bootstrap_tree] ok && msg == rangeindex + 1
 //@   send foundEdges [message_is_an_index_of_a_reference_branch] 0 <= msg && msg < len(edges)
 //@   loop 1
